@@ -309,13 +309,13 @@ pub fn property() -> Property {
         health: vec![("chk.pipeline_hostile", "ok", 20), ("chk.pipeline_hostile", "typed-error", 300)],
         subs: vec![
             enum_sub("dec.mutations_exhaustive", word_strings, oracle_words).may_abort(),
-            prop_sub("dec.mutations_random", 30_000, 1_500_000, |_| random_words(), oracle_words).may_abort(),
+            prop_sub("dec.mutations_random", 90_000, 1_500_000, |_| random_words(), oracle_words).may_abort(),
             enum_sub("dec.predicate_bytes_exhaustive", pred_bytes_exhaustive, oracle_pred_bytes).may_abort(),
-            prop_sub("dec.predicate_bytes", 3_000, 100_000, |_| pred_bytes(), oracle_pred_bytes).may_abort(),
-            prop_sub("dec.raw_predicates", 20_000, 800_000, |_| raw_pred(), oracle_raw_pred).may_abort(),
+            prop_sub("dec.predicate_bytes", 9_000, 100_000, |_| pred_bytes(), oracle_pred_bytes).may_abort(),
+            prop_sub("dec.raw_predicates", 60_000, 800_000, |_| raw_pred(), oracle_raw_pred).may_abort(),
             prop_sub(
                 "chk.pipeline_hostile",
-                25_000,
+                75_000,
                 1_000_000,
                 |_| {
                     graph_case(GraphCfg {
